@@ -389,11 +389,13 @@ PLAIN_XSD = f'''<?xml version="1.0" encoding="UTF-8"?>
               </element>
             </sequence>
             <attribute name="id" type="int" use="required"/>
+            <attribute name="y" type="gYear"/>
           </complexType>
         </element>
         <element name="name" type="date" minOccurs="0"/>
       </sequence>
     </complexType>
+    <unique name="years"><selector xpath="item"/><field xpath="@y"/></unique>
   </element>
 </schema>
 '''
@@ -701,6 +703,9 @@ def gen_plain(rng, fault=None):
         item = N('', 'item', [('', 'id', str(i + 1))], meta={'elem_only': True, 'required_children': ['name'],
                                                            'required_attrs': ['id'], 'bad_attr': {'id': 'x'}})
         item.children.append(N('', 'name', text=rng.choice(('bolt', 'nut 7', '12')), meta={}))
+        if rng.random() < 0.6:
+            item.attrs.append(('', 'y', str(1990 + i)))     # a date-typed identity-constraint field
+            item.meta['bad_attr'] = {'y': '19x0'}
         if rng.random() < 0.5:
             item.children.append(N('', 'qty', text=str(rng.randint(1, 50)), meta={'bad_text': '0'}))
         for _ in range(rng.randint(0, 3)):
